@@ -189,6 +189,8 @@ impl TimeTrigger {
 
         #[cfg(not(test))]
         let current = Local::now();
+        #[cfg(all(log4rs_verif, not(test)))]
+        let current = crate::verif::now(current);
         let next_time = TimeTrigger::get_next_time(current, config.interval, config.modulate);
         let next_roll_time = if config.max_random_delay > 0 {
             let random_delay = rand::thread_rng().gen_range(0..config.max_random_delay);
@@ -274,6 +276,22 @@ impl TimeTrigger {
         }
         panic!("Should not reach here!");
     }
+
+    /// Verification hook: the schedule computation.
+    #[cfg(log4rs_verif)]
+    pub fn verif_next_time(
+        current: DateTime<Local>,
+        interval: TimeTriggerInterval,
+        modulate: bool,
+    ) -> DateTime<Local> {
+        TimeTrigger::get_next_time(current, interval, modulate)
+    }
+
+    /// Verification hook: the currently scheduled instant.
+    #[cfg(log4rs_verif)]
+    pub fn verif_next_roll_time(&self) -> DateTime<Local> {
+        *self.next_roll_time.read().unwrap_or_else(|e| e.into_inner())
+    }
 }
 
 impl Trigger for TimeTrigger {
@@ -291,6 +309,8 @@ impl Trigger for TimeTrigger {
 
         #[cfg(not(test))]
         let current: DateTime<Local> = Local::now();
+        #[cfg(all(log4rs_verif, not(test)))]
+        let current = crate::verif::now(current);
         let mut next_roll_time = self.next_roll_time.write().unwrap();
         let is_trigger = current >= *next_roll_time;
         if is_trigger {
